@@ -17,7 +17,10 @@ from typing import Any, Callable, Dict, List, Optional
 from . import symx
 
 VERIF = os.path.dirname(os.path.dirname(os.path.abspath(__file__)))
-REPO_SRC = "/repo/src/krrood"
+# VERIF_REPO / VERIF_OUT: used by tools/ only, to try a seeded change in a scratch worktree without touching /repo or the
+# committed evidence; the registered commands never set them
+REPO_SRC = os.environ.get("VERIF_REPO", "/repo") + "/src/krrood"
+OUT = os.environ.get("VERIF_OUT", VERIF)
 
 EXIT_OK, EXIT_VIOLATION, EXIT_HARNESS = 0, 1, 3
 
@@ -221,7 +224,7 @@ def match_known(known: List[Dict[str, Any]], fullkey: str) -> Optional[Dict[str,
 
 
 def write_replay(prop: str, tier: str, seed: int, case: Dict[str, Any], c: Dict[str, Any]) -> str:
-    d = os.path.join(VERIF, "replays", prop)
+    d = os.path.join(OUT, "replays", prop)
     os.makedirs(d, exist_ok=True)
     body = dict(
         property=prop,
@@ -460,8 +463,8 @@ def finish(
         wall_s=round(wall, 2),
         violations=violations,
     )
-    os.makedirs(os.path.join(VERIF, "evidence"), exist_ok=True)
-    json.dump(ev, open(os.path.join(VERIF, "evidence", prop + ".json"), "w"), indent=1, default=repr)
+    os.makedirs(os.path.join(OUT, "evidence"), exist_ok=True)
+    json.dump(ev, open(os.path.join(OUT, "evidence", prop + ".json"), "w"), indent=1, default=repr)
     shown = 0
     cap = 10**9 if os.environ.get('VCHECK_ALL') else 60
     for l in lines:
